@@ -126,6 +126,16 @@ def side_cfgs(tier):
                         kind='acm'))
     out.append(make_cfg('acm106A', 1, 2, 1, None, 4, None, k=2, n=3,
                         kind='acm'))
+    # every payload size 1..MIU in both directions at LR 254, fault free:
+    # every value of the frame length octet occurs at both bit rates, with
+    # and without DID (a frame is not to be told by the value of an octet)
+    allsz = [(n, 252 - n) for n in range(1, 252)]
+    for framing in ('106A', '212F'):
+        for did in (None, 1):
+            for i in range(0, len(allsz), 8):
+                chunk = allsz[i:i + 8]
+                out.append(make_cfg(framing, 3, 3, did, None, 0, None, k=0,
+                                    n=len(chunk), kind='sweep', sizes=chunk))
     # empty payload from the initiator (an INF PDU without data is legal)
     out.append(make_cfg('106A', 3, 3, None, None, 0, None, k=0, n=2,
                         kind='empty', sizes=[(1, 1), (0, 1)]))
